@@ -1,5 +1,35 @@
-"""C16 /include transparency (structural clauses; see DESIGN.md section 3, C16)"""
-from . import genrules
+"""C16 /include is transparent for loading and preserved by writing (structural clauses; DESIGN.md section 3, C16)
+
+R16-merge    generated merge_includes: own incfile reset + every child element visited
+R16-writer   generated stringify: a child is written only if its own incfile is None and passes its own incfile to the group
+R16-ifdata   GenericIfData::merge_includes recurses into every variant that contains further items (as write_item does) and
+             clears every incfile it passes
+R16-fileid   tokenize(): the next file id advances by the number of files the nested tokenize() returned, whose names/data are appended
+R16-err      tokenize(): a failed load of an include file produces IncludeFileError (not a dropped error); reviewed guard table
+R03-rec      (shared with C03) the include recursion is unbounded: a self-including file aborts - reported under C03
+"""
+import re
+from . import genrules, mir, sym, guards, diag, panics
+from .common import Finding
+
+GID = "a2ml::GenericIfData"
+
+
+def tokenizer_table(prog):
+    A = sym.Analyzer(prog, opaque=[r"tokenizer::.*", r"loader::.*", r"a2ml::.*"])
+    out = {}
+    for fid in ("tokenizer::tokenize", "a2ml::tokenize_include"):
+        rows = diag.agg_rows(prog, A, fid, {"tokenizer::TokenizerError"})
+        b = prog.bodies.get(fid)
+        if b is None:
+            continue
+        S = A.summary(fid)
+        for ev in S.events:
+            if ev[0] == "call" and ev[3] == fid and re.search(r"(tokenizer::tokenize|a2ml::tokenize_a2ml|loader::load|loader::make_include_filename|Vec::append)$", ev[1]):
+                rows.append(["call " + ev[1].split("::")[-1] + ("(%s)" % guards.fmt_terms(ev[2][0]) if ev[1].endswith("append") else ""), sorted(guards.guard_set(b, S, ev[6]))])
+        rows.sort(key=lambda r: (r[0], r[1]))
+        out[fid] = rows
+    return out
 
 
 def run(chk):
@@ -9,4 +39,80 @@ def run(chk):
     chk.rules = [r for r in chk.rules if r["rule"] in ("R16-merge", "R16-writer")]
     genrules.expansion_diffs(chk, "R16-shipped", lambda k: "merge_includes" in k,
                              "generated A2lObject impls (merge_includes/reset_location) identical (canonical form) to the generator's output")
+    prog = mir.prog()
+    # ------------------------------------------------------------------ R16-ifdata
+    adt = prog.adts.get(GID)
+    n = 0
+    if adt is None:
+        chk.add(Finding("R16-ifdata", "R16-ifdata::anchor", "a2ml::GenericIfData not found"))
+    else:
+        containers = [v["name"] for v in adt["variants"] if any("GenericIfData" in f["ty"] for f in v["fields"])]
+        with_inc = [v["name"] for v in adt["variants"] if any(f["name"] == "incfile" or (f["ty"].startswith("std::option::Option<std::string::String>")) for f in v["fields"])]
+        A = sym.Analyzer(prog, opaque=[r"a2ml::.*"])
+        b = prog.bodies.get("a2ml::GenericIfData::merge_includes")
+        if b is None:
+            chk.add(Finding("R16-ifdata", "R16-ifdata::anchor2", "GenericIfData::merge_includes not found"))
+        else:
+            S = A.summary(b.id)
+            rec = set()
+            for ev in S.events:
+                if ev[0] == "call" and ev[3] == b.id and ev[1].endswith("GenericIfData::merge_includes"):
+                    for g in guards.guard_set(b, S, ev[6]):
+                        m = re.fullmatch(r"discr\(arg1\) == (.*)", g)
+                        if m:
+                            rec.update(m.group(1).split("|"))
+            cleared = set()
+            for ev in S.events:
+                if ev[0] == "write" and ev[3] == b.id:
+                    r, fields = sym.path_of(ev[1])
+                    if fields and re.search(r"GenericIfData::(\w+)\.(incfile|0)$", fields[-1]) and not ev[2]:
+                        cleared.add(re.search(r"GenericIfData::(\w+)\.", fields[-1]).group(1))
+            for v in containers:
+                n += 1
+                if v not in rec:
+                    chk.add(Finding("R16-ifdata", "R16-ifdata::recurse::" + v, "GenericIfData::merge_includes does not descend into %s values: tagged items below them keep their include origin, and after merge_includes() the file is written with /include directives in the middle of the IF_DATA instead of the data" % v, b.where()))
+            for v in with_inc:
+                n += 1
+                if v not in cleared:
+                    chk.add(Finding("R16-ifdata", "R16-ifdata::clear::" + v, "GenericIfData::merge_includes does not clear the incfile of %s values" % v, b.where()))
+            # sibling: write_item / write recurse into the same containers
+            wrec = set()
+            for wid in ("a2ml::GenericIfData::write_item", "a2ml::GenericIfData::write"):
+                wb = prog.bodies.get(wid)
+                if wb is None:
+                    continue
+                Sw = A.summary(wid)
+                for ev in Sw.events:
+                    if ev[0] == "call" and ev[3] == wid and re.search(r"GenericIfData::(write_item|write)$", ev[1]):
+                        for g in guards.guard_set(wb, Sw, ev[6]):
+                            m = re.fullmatch(r"discr\(arg\d\) == (.*)", g)
+                            if m:
+                                wrec.update(x for x in m.group(1).split("|") if x in containers)
+            for v in sorted(wrec - rec):
+                chk.add(Finding("R16-ifdata", "R16-ifdata::sibling::" + v, "the writer walks into %s values but merge_includes does not" % v, b.where()))
+    chk.rule("R16-ifdata", "GenericIfData variants that contain further items / carry an include origin handled by merge_includes", n, floor=8)
+
+    # ------------------------------------------------------------------ R16-fileid
+    b = prog.bodies.get("tokenizer::tokenize")
+    n = 0
+    if b is None:
+        chk.add(Finding("R16-fileid", "R16-fileid::anchor", "tokenizer::tokenize not found"))
+    else:
+        obs, fz = panics.obligations_of(b, prog)
+        adv = [o for o in obs if o.kind == "Overflow:Add" and re.search(r"Add len\(.*filenames\)", o.desc)]
+        n = 1
+        if not adv:
+            others = sorted({o.desc for o in obs if o.kind == "Overflow:Add"})
+            chk.add(Finding("R16-fileid", "R16-fileid::advance", "after tokenizing an included file the next file id is not advanced by the number of files that call returned (additions found: %s): a later /include reuses the id of a nested include and its tokens are read against the wrong file's text" % others, b.where()))
+        S = sym.Analyzer(prog, opaque=[r"tokenizer::.*", r"loader::.*"]).summary(b.id)
+        apps = [e for e in S.events if e[0] == "call" and e[3] == b.id and e[1].endswith("Vec::append")]
+        names = {guards.fmt_terms(e[2][1]) for e in apps if len(e[2]) > 1}
+        for want in ("filenames", "filedata", "tokens"):
+            n += 1
+            if not any(want in x for x in names):
+                chk.add(Finding("R16-fileid", "R16-fileid::append::" + want, "tokenize() does not append the nested result's %s to its own" % want, b.where()))
+    chk.rule("R16-fileid", "file-id bookkeeping of nested includes (id advance, names/data/tokens appended)", n, floor=4)
+
+    # ------------------------------------------------------------------ R16-err
+    diag.compare(chk, "R16-err", "tokenizer", tokenizer_table(prog), "include handling in tokenize()/tokenize_include(): error constructions and nested calls with their control predicates, compared with the reviewed table", floor=8)
     chk.assumptions += ["not decided: model equality with the flattened text; path resolution on disk"]
